@@ -51,7 +51,7 @@ Definition model_publish (c : ctx) (p : pkt) : resp :=
       let qos' := if x_maxqos c <? qos then x_maxqos c else qos in   (* downgrade to the server maximum *)
       if qos' =? 0 then RNone
       else if qos' =? 2 then RAck T_PUBREC (k_pid p) 0
-      else RAck T_PUBACK (k_pid p) qos'.                (* QosCodes[1] = 0x01 travels in the PUBACK *)
+      else RAck T_PUBACK (k_pid p) 0.
 
 Definition pubrel_reason_ok (rc : N) : bool := (rc =? 0) || (rc =? 146).
 
@@ -64,10 +64,9 @@ Definition model_pubrel (c : ctx) (p : pkt) : resp :=
   end.
 
 Definition sub_code (c : ctx) (inuse : bool) (f : fctx) (s : sub) : N :=
-  if inuse then 145      (* `continue` skips the MQTT 3 mapping below: 0x91 reaches MQTT 3 clients (see C23) *)
-  else
   let raw :=
-    if negb (f_valid f) then 143
+    if inuse then 145    (* 0x91; mapped to 0x80 for MQTT 3 like every other failure (fix 273d690) *)
+    else if negb (f_valid f) then 143
     else if s_nolocal s && f_shared f then 130           (* 0x82 protocol error: shared + no-local *)
     else if negb (f_acl f) then (if x_obscure c then 128 else 135)
     else if x_maxqos c <? s_qos s then x_maxqos c else s_qos s in
